@@ -95,7 +95,7 @@ def main():
             with open(os.path.join(corpus_dir, f"s{i}"), "wb") as f:
                 f.write(bytes([i % 256, i // 256 % 256, 0]))
     state = {"n": 0, "classes": {}, "seen": set(), "hashes": [], "sample": None, "t": time.time()}
-    ops = ["delete", "duplicate", "swap", "replace-own", "replace-vocab", "char-delete", "char-replace", "char-insert", "char-transpose"]
+    ops = ["delete", "duplicate", "swap", "replace-own", "replace-vocab", "char-delete", "char-replace", "char-insert", "char-transpose", "truncate"]
 
     def flush():
         with open(os.path.join(a.work, "stats.json"), "w") as f:
